@@ -40,7 +40,8 @@ MCInit == \/ \E s \in Strs : InitWith([op |-> "pct", in |-> s])
                 b \in {"http://verif.test", "http://verif.test/api/v1", "http://verif.test/", "https://verif.test:8443/a.b/c/",
                         "http://verif.test/pkg.Other"} :
                 InitWith([op |-> "spec_reuse", proto |-> p, used |-> u, base |-> b])
-          \/ \E p \in {"connect", "grpc", "grpcweb"} : InitWith([op |-> "client_init_fail", proto |-> p])
+          \/ \E p \in {"connect", "grpc", "grpcweb"}, u \in {"badoption", "badurl"} :
+                InitWith([op |-> "client_init_fail", proto |-> p, used |-> u])
           \* C08 / C01: a unary Request sent twice, the message once above and once below the compression threshold
           \/ \E p \in {"connect", "grpc", "grpcweb"}, u \in {"large-first", "small-first"} :
                 InitWith([op |-> "enc_reuse", proto |-> p, used |-> u])
